@@ -18,13 +18,13 @@ SHARDS = {"quick": 8, "thorough": 16}
 SHRINK = {"quick": False, "thorough": True}
 RULE = (
     "case = flow back-end (zuko, flowjax 1 in 8) x bounded transform (logit, probit, off) x affine (on, off) x width x dims in {1,2} "
-    "x generated bounds x generated training set (mixture placed anywhere in the box, incl. hugging a bound; spread > 0 in every "
+    "x generated bounds (written as floats or as Python ints; occasionally one parameter in tiny / huge units, box 4e-6 or 5e4 wide) x dtype declared or left to the back-end default x generated training set (mixture placed anywhere in the box, incl. hugging a bound; spread > 0 in every "
     "dimension) x state (untrained with fitted data transform, trained 1-25 epochs, optionally fitted before on data of another scale) x construction route (FlowTransform handed to the "
     "flow class, or Aspire.init_flow / fit wiring) x non-default flow options. Oracles: (a) quadrature of exp(log_prob) over the whole "
     "support must be 1 within 5e-3 - for bounded parameters by substitution through the harness's own float64 logit / probit map, "
     "with Gauss-Legendre panels that follow the quantiles of 4000 of the flow's own draws (1-D: ~185 panels x 8 nodes; 2-D: ~70 x 5 per axis) spanning +-12 standard deviations of the mapped training data; (b) log q "
     "returned by sample_and_log_prob equals log_prob at the returned points; (c) every draw lies inside declared finite bounds; "
-    "(d) after save -> load, log_prob on the draws is unchanged (1e-6) and (a) still holds; (e) Aspire.sample_flow returns "
+    "(d) after the flow was saved twice and reloaded from the second copy, log_prob on the draws is unchanged (1e-6; float32: the allowance of (b)) and (a) still holds; (e) Aspire.sample_flow returns "
     "consistent (x, log q) pairs. Non-trivial = bounded or affine transform active and the flow trained."
 )
 ASSUMPTIONS = [
